@@ -18,8 +18,6 @@ use vp_core::Tier;
 /// standard library) can be attributed to a case by the parent.
 fn canary_child(depth: usize) -> ! {
     use std::io::Write;
-    let ops = vp_buffer_pure::ops();
-    let n = ops.len();
     let out = std::io::stdout();
     let mut failures = 0u64;
     // refused operations panic by design (hundreds of thousands of times, always the same
@@ -37,8 +35,10 @@ fn canary_child(depth: usize) -> ! {
             eprintln!("panicked: {}", msg);
         }
     }));
-    for store in vp_buffer_pure::stores() {
-        for d in 0..=depth {
+    for (_, ops, stores, max_depth) in vp_buffer_pure::families() {
+      let n = ops.len();
+      for store in stores {
+        for d in 0..=depth.min(max_depth) {
             for idx in 0..n.pow(d as u32) {
                 let mut i = idx;
                 let mut seq = Vec::with_capacity(d);
@@ -59,6 +59,7 @@ fn canary_child(depth: usize) -> ! {
                 }
             }
         }
+      }
     }
     println!("CANARY-DONE failures={}", failures);
     std::process::exit(0)
@@ -89,8 +90,12 @@ fn canary(run: &Arc<Run>) -> bool {
 }
 
 fn native(run: &Arc<Run>, depth: usize) {
-    let ops = vp_buffer_pure::ops();
-    let stores = vp_buffer_pure::stores();
+    for (family, ops, stores, max_depth) in vp_buffer_pure::families() {
+        native_family(run, family, &ops, &stores, depth.min(max_depth));
+    }
+}
+
+fn native_family(run: &Arc<Run>, family: &str, ops: &[vp_buffer_pure::Op], stores: &[vp_buffer_pure::Store], depth: usize) {
     let n = ops.len();
     let total: usize = (0..=depth).map(|d| n.pow(d as u32)).sum();
     stores.par_iter().for_each(|&store| {
@@ -111,7 +116,7 @@ fn native(run: &Arc<Run>, depth: usize) {
                 match vp_core::catch(|| vp_buffer_pure::run_case(store, &seq, take)) {
                     Ok(Ok(c)) => {
                         let bail = seq.contains(&vp_buffer_pure::Op::Bail);
-                        *counts.entry(format!("{}:{}:{}", c, if bail { "early-exit" } else { "complete" }, if take { "taken" } else { "dropped" })).or_insert(0) += 1;
+                        *counts.entry(format!("{}:{}:{}:{}", family, c, if bail { "early-exit" } else { "complete" }, if take { "taken" } else { "dropped" })).or_insert(0) += 1;
                     }
                     Ok(Err(msg)) => {
                         run.violation(&format!("c19:{}", msg.split(':').next().unwrap_or("")), &format!("{:?} {:?} take={}: {}", store, seq, take, msg), json!({"store": format!("{:?}", store), "ops": format!("{:?}", seq), "take_initialized": take}));
@@ -215,7 +220,7 @@ fn main() {
     run.assume("Miri runs with -Zmiri-disable-stacked-borrows: the property speaks about out-of-bounds and use-after-free accesses, not about the (experimental) aliasing model, which the library's deliberate 'two references, disjoint use' pattern does not satisfy");
     run.assume("Miri and AddressSanitizer are monitors on the enumerated executions, not deciding techniques; the sanitizer build instruments Rust code of the harness and the repository crates (not the C/C++ reference libraries, not std)");
     run.finish(
-        &format!("all operation sequences of length <= {} over 20 operations (write 0/1/3, extend from exact-size iterators, from iterators whose size hint is inexact and from one that is not fused, a reader handed the view itself, reader fill 0/1/3, a reader that claims one byte more than it was given, five nested-view uses incl. such a reader, early exit, query) x take/drop of the view, on every backing store (Vec with capacity 0..4 and length 0..2, ArrayVec<4>, slice, slice reference, capped views of each with every cap) against a Vec-with-capacity reference model with canaries (depth 2 first in a child process, so that an abort is attributed to a case); Miri on the same enumerator (depth {}); thorough: AddressSanitizer build of this enumerator and of the C05/C06/C07/C11/C16/C17 quick enumerators", if thorough { 4 } else { 3 }, miri_depth),
+        &format!("all operation sequences of length <= {} over 20 operations (write 0/1/3, extend from exact-size iterators, from iterators whose size hint is inexact and from one that is not fused, a reader handed the view itself, reader fill 0/1/3, a reader that claims one byte more than it was given, five nested-view uses incl. such a reader, early exit, query) x take/drop of the view, on every backing store (Vec with capacity 0..4 and length 0..2, ArrayVec<4>, slice, slice reference, capped views of each with every cap) against a Vec-with-capacity reference model with canaries; a second family of long writes (1, 63, 64, 65, 127 bytes, 64-byte extends / reads / nested views) up to depth 3 on stores of 63..200 bytes (Vec, ArrayVec<128>, slice, slice reference, capped views) (depth 2 first in a child process, so that an abort is attributed to a case); Miri on the same enumerator (depth {}); thorough: AddressSanitizer build of this enumerator and of the C05/C06/C07/C11/C16/C17 quick enumerators", if thorough { 4 } else { 3 }, miri_depth),
         true,
     );
 }
